@@ -58,7 +58,8 @@ ASSUMPTIONS = [
     'happen): only "no exception, self-consistent (suffix, count) pair" is asserted there',
     'negative n and str content are DONT-CARE',
 ]
-SHARDS = {'quick': 1, 'thorough': 16}
+INTERPRETER_FLAGS = [[], ['-O'], [], ['-bb']]
+SHARDS = {'quick': 4, 'thorough': 16}
 
 CHUNKS = [1, 2, 7, 64, 4096, 65536]
 ODD_CHUNKS_QUICK = [3, 100, 4095]
